@@ -11,6 +11,8 @@ package influxql
 //	"re" buffered re-read (a = new n)
 //	"un" rune unread (a = new n)
 //	"ts" token scanned from the lexer (a = ring n, b = ring i)
+//	"tp" the token just scanned (a = line, b = column, ch = Token), follows every "ts"
+//	"ns" a new Scanner (and rune reader) was created
 //	"tb" token re-delivered from the ring (a = new n; the number of
 //	     Unscan calls since the previous token event is a+1-previous n)
 var VerifTrace func(kind string, a, b int, ch rune)
